@@ -19,6 +19,24 @@ CHECKS = {
  "C16": dict(engine="mon-correlator", cat="exploration", tech="runtime monitor: cleanup cut-offs from real clock readings, behavioural observation of pending halves; thorough adds a real-time run of Auditd.Read",
    text="All arrival orders of up to N halves of three PIDs with a cleanup pair at every gap and every cut-off between earlier arrivals; whether a pending half survived is observed by delivering the other half. Thorough adds one real-time run of Auditd.Read across its one-minute ticker.",
    note="Wall clock must not step backwards within a history; the 60-120 s band is unspecified.", ref="4 C16"),
+ "C05": dict(engine="mon-sshd", cat="fault_enumeration", tech="sequence monitor over recorder + harness-owned logins channel under the race detector; fault injection at the event write; cancellation in a state-confirmed blocked hand-off",
+   text="Every accepted branch x PID tokens: exactly one succeeded event, written before the hand-off (channel empty at every write; logical-clock stamps on an unbuffered channel), one login with the line's PID, the certificate key id (or unknown) and the very pointer that was written. Failure/unrecognised lines never forward. Write failure on every form: error returned wrapping the cause, nothing forwarded. Cancellation before the call and while parked in the hand-off (state confirmed from the goroutine dump): returns nil, nothing forwarded.",
+   note="-race build in child processes; the blocked state is confirmed, not assumed.", ref="4 C05"),
+ "C06": dict(engine="mon-sshd", cat="exploration", tech="reference-constructor oracle over generated sshd messages (expected event built from the generated fields), child-process batches",
+   text="21 message forms x each-choice coverage of all boundary pools, then seeded random field values; exactly one event per line, compared field by field with the event constructed from the fields (never from a regular expression).",
+   note="Field domains are those of the quantifier; inherently ambiguous renderings are not generated.", ref="4 C06"),
+ "C07": dict(engine="mon-sshd+mon-pipe", cat="exploration", tech="differential runtime monitor: same record through the processor directly and through SyslogIngester.Process / a real FIFO; audit parse with and without newline; FIFO->AuditLogIngester->Read vs direct feed",
+   text="Both sides of each comparison are the real code; events and forwarded logins must be equal (modulo uuid and clock). Real FIFOs with five write chunkings; -race build for the FIFO parts.",
+   note="rsyslog frames records as '<pid> <msg>\\n'.", ref="4 C07"),
+ "C11": dict(engine="mon-sshd", cat="exploration", tech="total-function monitor in child processes with write-ahead input log; plain and -race (checkptr) builds",
+   text="Hostile lines (every byte-offset truncation of every form, random bytes incl. 64 KiB, mutations, broken certificate tails, hostile PID tokens) through the processor and the syslog ingester: no panic/crash, nil error, at most one event, login only with one succeeded event, event only after a recognised keyword, every extracted field a substring of the line or a fixed placeholder.",
+   note="data.* values are compared after JSON coercion, allowing byte-offset slices that are not rune-aligned.", ref="4 C11"),
+ "C17": dict(engine="mon-sshd", cat="exploration", tech="by-construction oracle over adversarial user names (generator knows the genuine peer)",
+   text="invalid-user / failed-password / max-attempts lines in both renderings with adversarial names x IPv4/IPv6/zone peers x boundary ports, through the processor and the syslog ingester: exactly one failed event whose source address and port are the genuine ones.",
+   note="Genuine peer addresses contain no spaces; names contain no newline, at most 100 characters.", ref="4 C17"),
+ "C19": dict(engine="mon-sshd", cat="exploration", tech="Prometheus Gather() delta monitor on a private registry, per line",
+   text="The C06 corpus and the C11 hostile corpus, one line at a time: an emitted UserLogin moves remote_logins_total by exactly one, under an outcome label matching the event and a method label matching the login kind; lines without a recognised keyword move nothing.",
+   note="Single-threaded; counters read before and after each line.", ref="4 C19"),
 }
 
 NOT_YET = {
